@@ -199,6 +199,20 @@ def build(tier="quick", seed=0):
         name = f"C15.timestamps[{width} field(s) named from a / ts / ts_description / b, every type assignment]"
         pack.add(Obligation(name, run_ts(width), replay=lambda w: {"call": "c15_timestamps", "args": {"fields": w.get("fields")}}, functions=FU, mode="bounded width, every ordered choice of names incl. ts / ts_description and every assignment of datetime / varint / string"))
 
+    # a timestamp field that is unset still gets its record (ts is None): one record per timestamp FIELD, nothing disappears
+    for label, setv in (("both unset", {}), ("first set, second unset", {"a": DTV[0]}), ("first unset, second set", {"b": DTV[1]})):
+        name = f"C15.timestamps.unset[{label}]"
+
+        def th_unset(setv=setv):
+            D = it.call(RD, ["c15/ts", [("datetime", "a"), ("string", "s"), ("datetime", "b")]], {})
+            rec = it.call(D, [], dict(setv, s="kept"))
+            out = list(it.iterate(it.call(base.g["iter_timestamped_records"], [rec], {})))
+            return [(it.unbase(o.attrs.get("ts")), it.unbase(o.attrs.get("ts_description")), it.unbase(o.attrs.get("s")), it.unbase(o.attrs.get("a")), it.unbase(o.attrs.get("b"))) for o in out]
+
+        want = [(setv.get("a"), "a", "kept", setv.get("a"), setv.get("b")), (setv.get("b"), "b", "kept", setv.get("a"), setv.get("b"))]
+        pack.add(Obligation(name, lambda tier, name=name, th_unset=th_unset, want=want: prove_paths(name, th_unset, lambda p, want=want: (p.value == want, f"expansion of a record with unset timestamp fields: {p.value}, expected one record per timestamp field: {want}")),
+                            replay=lambda w, setv=setv: {"call": "c15_ts_unset", "args": {"which": sorted(setv)}}, functions=FU, mode="the three placements of unset timestamp fields"))
+
     # a record's own field named 'ts' / 'ts_description' collides with the two fields the expansion adds: "keeps all original non-metadata fields" cannot hold for it
     for ft, fname in (("string", "ts"), ("string", "ts_description"), ("datetime", "ts")):
         name = f"C15.timestamps.collision[own {ft} field named {fname} next to a timestamp field 'created']"
